@@ -1,7 +1,7 @@
 package vs
 
 import (
-	"fmt"
+	"strconv"
 	"time"
 )
 
@@ -22,6 +22,8 @@ type chanCore struct {
 	ticker  bool
 	oneshot bool
 	stopped bool
+	slotw   []uint64 // race build: one synchronisation address per buffer slot
+	closew  uint64   // race build: synchronisation address of close
 }
 
 func (c *chanCore) name() string {
@@ -37,6 +39,7 @@ type Chan[T any] struct {
 	core chanCore
 }
 
+//go:norace
 func (c *Chan[T]) c() *chanCore {
 	if c == nil {
 		return nil
@@ -45,6 +48,8 @@ func (c *Chan[T]) c() *chanCore {
 }
 
 // NewChan replaces make(chan T, n).
+//
+//go:norace
 func NewChan[T any](n int) *Chan[T] {
 	if n < 0 {
 		panic(shimPanic("makechan: size out of range"))
@@ -55,17 +60,24 @@ func NewChan[T any](n int) *Chan[T] {
 	}
 	c := &Chan[T]{}
 	c.core.cap = n
-	c.core.obj = s.newObject(fmt.Sprintf("chan#%d(%d)", s.nobj+1, n))
+	if RaceBuild && n > 0 {
+		c.core.slotw = make([]uint64, n)
+	}
+	c.core.obj = s.newObject("chan#" + strconv.Itoa(s.nobj+1) + "(" + strconv.Itoa(n) + ")")
 	return c
 }
 
 // Name sets a readable name (harness use).
+//
+//go:norace
 func (c *Chan[T]) Name(n string) *Chan[T] {
 	c.core.obj.name = n
 	return c
 }
 
 // Send replaces `c <- v`.
+//
+//go:norace
 func (c *Chan[T]) Send(v T) {
 	t := enter()
 	r := t.do(&op{arms: []arm{{kind: aSend, ch: c.c(), val: v}}})
@@ -75,12 +87,16 @@ func (c *Chan[T]) Send(v T) {
 }
 
 // Recv replaces `<-c`.
+//
+//go:norace
 func (c *Chan[T]) Recv() T {
 	v, _ := c.Recv2()
 	return v
 }
 
 // Recv2 replaces `v, ok := <-c`.
+//
+//go:norace
 func (c *Chan[T]) Recv2() (T, bool) {
 	t := enter()
 	r := t.do(&op{arms: []arm{{kind: aRecv, ch: c.c()}}})
@@ -95,6 +111,8 @@ func (c *Chan[T]) Recv2() (T, bool) {
 }
 
 // Close replaces close(c).
+//
+//go:norace
 func (c *Chan[T]) Close() {
 	t := enter()
 	r := t.do(&op{arms: []arm{{kind: aClose, ch: c.c()}}})
@@ -104,6 +122,8 @@ func (c *Chan[T]) Close() {
 }
 
 // Len replaces len(c).
+//
+//go:norace
 func (c *Chan[T]) Len() int {
 	if c == nil {
 		return 0
@@ -112,6 +132,8 @@ func (c *Chan[T]) Len() int {
 }
 
 // Cap replaces cap(c).
+//
+//go:norace
 func (c *Chan[T]) Cap() int {
 	if c == nil {
 		return 0
@@ -138,6 +160,8 @@ type Arm struct {
 }
 
 // SendArm builds `case c <- v`.
+//
+//go:norace
 func SendArm[T any](c *Chan[T], v T) *SendCase {
 	return &SendCase{a: arm{kind: aSend, ch: c.c(), val: v}}
 }
@@ -146,11 +170,15 @@ func SendArm[T any](c *Chan[T], v T) *SendCase {
 func (s *SendCase) Arm() Arm { return Arm{a: s.a} }
 
 // RecvArm builds `case x, ok := <-c`.
+//
+//go:norace
 func RecvArm[T any](c *Chan[T]) *RecvCase[T] {
 	return &RecvCase[T]{ch: c.c()}
 }
 
 // Arm converts the clause for Select.
+//
+//go:norace
 func (dst *RecvCase[T]) Arm() Arm {
 	return Arm{a: arm{kind: aRecv, ch: dst.ch}, set: func(r opResult) {
 		dst.OK = r.ok
@@ -193,7 +221,7 @@ func NewTicker(d time.Duration) *Ticker {
 	}
 	c := NewChan[time.Time](1)
 	c.core.ticker = true
-	c.core.obj.name = fmt.Sprintf("ticker#%d", c.core.obj.id)
+	c.core.obj.name = "ticker#" + strconv.Itoa(c.core.obj.id)
 	return &Ticker{C: c}
 }
 
@@ -213,7 +241,7 @@ func NewTimer(d time.Duration) *Timer {
 	c := NewChan[time.Time](1)
 	c.core.ticker = true
 	c.core.oneshot = true
-	c.core.obj.name = fmt.Sprintf("timer#%d", c.core.obj.id)
+	c.core.obj.name = "timer#" + strconv.Itoa(c.core.obj.id)
 	return &Timer{C: c}
 }
 
